@@ -674,7 +674,11 @@ func c15goTypesOrder(c *core.Check, st *tmpl.Static) {
 		}
 		walk(t.Root)
 	}
-	c.Decide(len(reader) >= 3 && strings.Join(reader, ",") == strings.Join(writer, ","), "go-types-order", key, c.Prog.Rel(fd.Pos()),
+	if len(reader) < 3 || len(writer) < 3 {
+		c.Unknown("go-types-order", key, c.Prog.Rel(fd.Pos()), fmt.Sprintf("could not read both orders (runtime %v, template %v)", reader, writer))
+		return
+	}
+	c.Decide(strings.Join(reader, ",") == strings.Join(writer, ","), "go-types-order", key, c.Prog.Rel(fd.Pos()),
 		"the template emits "+strings.Join(writer, ", ")+" in the order registerGoTypes pairs them with the descriptors",
 		fmt.Sprintf("the template lists the Go types in the order %v but registerGoTypes pairs them by index in the order %v: Go types are registered under the descriptors of another kind (a union's Go type maps to an exception's descriptor)", writer, reader))
 }
@@ -806,14 +810,15 @@ func c12skipPredicate(c *core.Check) {
 }
 
 // ---------------------------------------------------------------------------------------------------------------------
-// C14: integer keys and indices must survive the JSON transport exactly. Rule: the fieldmask package never converts a
+// C14: integer keys and indices must survive the JSON transport exactly. Rule: the transport code (serdes.go) never converts a
 // floating-point value to an integer type (a key decoded through float64 loses precision above 2^53).
 func c14noFloatKeys(c *core.Check) {
 	pk := c.Prog.Pkg(fmRel)
 	info := pk.TypesInfo
 	convs, bad := 0, 0
 	for _, f := range pk.Syntax {
-		if strings.HasSuffix(c.Prog.Fset.File(f.Pos()).Name(), "_test.go") {
+		// the JSON/binary transport of masks lives in serdes.go
+		if !strings.HasSuffix(c.Prog.Fset.File(f.Pos()).Name(), "/serdes.go") {
 			continue
 		}
 		for _, d := range f.Decls {
@@ -851,7 +856,7 @@ func c14noFloatKeys(c *core.Check) {
 	if bad == 0 {
 		c.OK("integer-keys-exact", fmRel+"/integer-conversions", fmRel, fmt.Sprintf("%d integer conversions, none from a floating-point value", convs))
 	}
-	if convs < 5 {
+	if convs < 3 {
 		c.Unknown("integer-keys-exact", fmRel+"/vacuity", "", fmt.Sprintf("only %d integer conversions found", convs))
 	}
 }
@@ -914,11 +919,11 @@ func c17ampEscaped(c *core.Check) {
 		}
 		return true
 	})
+	// a guard is acceptable when it is a single test (no && / ||) that only asks whether the text contains '&'
 	okg := true
 	for _, gtxt := range guards {
-		switch strings.ReplaceAll(gtxt, " ", "") {
-		case `strings.Contains(str,"&")`, `strings.ContainsRune(str,'&')`, `strings.IndexByte(str,'&')>=0`, `strings.Index(str,"&")>=0`, `strings.ContainsAny(str,"&")`:
-		default:
+		t := strings.ReplaceAll(gtxt, " ", "")
+		if strings.Contains(t, "&&") || strings.Contains(t, "||") || !(strings.Contains(t, `"&"`) || strings.Contains(t, `'&'`)) || strings.Contains(t, "[") {
 			okg = false
 		}
 	}
